@@ -60,6 +60,21 @@ func vTVPre(D, P, discOff, disc int) (capnp.Struct, int, byte) {
 	return s, j, old
 }
 
+// vTVScramble makes an arbitrary OTHER union member the active one before a setter runs
+func vTVScramble(s capnp.Struct, discOff, disc int) {
+	if disc >= 0 {
+		s.SetUint16(capnp.DataOffset(discOff), vNondetU16())
+	}
+}
+
+// vTVPtrPost: the pointer setter / allocator made its member active and filled its slot
+func vTVPtrPost(s capnp.Struct, slot, discOff, disc int) {
+	if disc >= 0 {
+		vAssert(int(vTVLoad16(s, discOff)) == disc, "C15.tv.pointer-setter-sets-the-discriminant")
+	}
+	vAssert(s.HasPtr(uint16(slot)), "C15.tv.pointer-setter-fills-the-slot")
+}
+
 // vTVPost: the setter set the discriminant and touched nothing outside the field and the discriminant
 func vTVPost(s capnp.Struct, j int, old byte, off, n int, D, P, discOff, disc int) {
 	if disc >= 0 {
